@@ -3291,6 +3291,26 @@ impl<'s> Semantics<'s> {
         Ok(())
     }
 
+    /// The rotate amount of rol/ror: the count masked to 5 bits (6 bits for 64-bit
+    /// operands) and widened to the operand, and that value modulo the operand size.
+    /// Flags change only when the masked count is not zero.
+    fn rotate_counts(
+        &self,
+        lhs: &Expression,
+        count: Expression,
+    ) -> Result<(Expression, Expression), Error> {
+        let count_mask = if lhs.bits() == 64 { 0x3f } else { 0x1f };
+        let mut masked = Expr::and(count.clone(), expr_const(count_mask, count.bits()))?;
+        if masked.bits() < lhs.bits() {
+            masked = Expr::zext(lhs.bits(), masked)?;
+        }
+        let rotate = Expr::and(
+            masked.clone(),
+            expr_const(lhs.bits() as u64 - 1, lhs.bits()),
+        )?;
+        Ok((masked, rotate))
+    }
+
     pub fn rol(&self, control_flow_graph: &mut ControlFlowGraph) -> Result<(), Error> {
         let detail = self.details()?;
 
@@ -3301,11 +3321,8 @@ impl<'s> Semantics<'s> {
             let lhs = self.operand_load(block, &detail.operands[0])?;
             let count = self.operand_load(block, &detail.operands[1])?;
 
-            let mut count = match lhs.bits() {
-                8 => Expr::and(count.clone(), expr_const(0x7, count.bits()))?,
-                16 => Expr::and(count.clone(), expr_const(0xf, count.bits()))?,
-                32 => Expr::and(count.clone(), expr_const(0x1f, count.bits()))?,
-                64 => Expr::and(count.clone(), expr_const(0x3f, count.bits()))?,
+            match lhs.bits() {
+                8 | 16 | 32 | 64 => {}
                 _ => {
                     return Err(Error::Custom(format!(
                         "Unsupported rol bits {}",
@@ -3314,11 +3331,7 @@ impl<'s> Semantics<'s> {
                 }
             };
 
-            if count.bits() < lhs.bits() {
-                count = Expr::zext(lhs.bits(), count)?;
-            }
-
-            let shift_left_bits = count;
+            let (masked_count, shift_left_bits) = self.rotate_counts(&lhs, count)?;
             let shift_right_bits = Expr::sub(
                 expr_const(lhs.bits() as u64, lhs.bits()),
                 shift_left_bits.clone(),
@@ -3329,28 +3342,34 @@ impl<'s> Semantics<'s> {
                 Expr::shr(lhs, shift_right_bits)?,
             )?;
 
-            // CF is the bit sent from one end to the other. In our case, it should be LSB of result
-            block.assign(scalar("CF", 1), Expr::trun(1, result.clone())?);
+            let affected = Expr::cmpneq(
+                masked_count.clone(),
+                expr_const(0, masked_count.bits()),
+            )?;
 
-            // OF is XOR of two most-significant bits of result
-            block.assign(
-                scalar("OF", 1),
-                Expr::xor(
-                    Expr::trun(
-                        1,
-                        Expr::shr(
-                            result.clone(),
-                            expr_const(result.bits() as u64 - 1, result.bits()),
-                        )?,
-                    )?,
-                    Expr::trun(
-                        1,
-                        Expr::shr(
-                            result.clone(),
-                            expr_const(result.bits() as u64 - 2, result.bits()),
-                        )?,
+            // CF is the bit sent from one end to the other. In our case, it should be LSB of result
+            let cf = Expr::trun(1, result.clone())?;
+
+            // OF is the XOR of CF and the most-significant bit of result
+            let of = Expr::xor(
+                Expr::trun(
+                    1,
+                    Expr::shr(
+                        result.clone(),
+                        expr_const(result.bits() as u64 - 1, result.bits()),
                     )?,
                 )?,
+                cf.clone(),
+            )?;
+
+            // a masked count of zero leaves the flags alone
+            block.assign(
+                scalar("OF", 1),
+                Expr::ite(affected.clone(), of, expr_scalar("OF", 1))?,
+            );
+            block.assign(
+                scalar("CF", 1),
+                Expr::ite(affected, cf, expr_scalar("CF", 1))?,
             );
 
             // SF/ZF are unaffected
@@ -3376,11 +3395,8 @@ impl<'s> Semantics<'s> {
             let lhs = self.operand_load(block, &detail.operands[0])?;
             let count = self.operand_load(block, &detail.operands[1])?;
 
-            let mut count = match lhs.bits() {
-                8 => Expr::and(count.clone(), expr_const(0x7, count.bits()))?,
-                16 => Expr::and(count.clone(), expr_const(0xf, count.bits()))?,
-                32 => Expr::and(count.clone(), expr_const(0x1f, count.bits()))?,
-                64 => Expr::and(count.clone(), expr_const(0x3f, count.bits()))?,
+            match lhs.bits() {
+                8 | 16 | 32 | 64 => {}
                 _ => {
                     return Err(Error::Custom(format!(
                         "Unsupported ror bits {}",
@@ -3389,11 +3405,7 @@ impl<'s> Semantics<'s> {
                 }
             };
 
-            if count.bits() < lhs.bits() {
-                count = Expr::zext(lhs.bits(), count)?;
-            }
-
-            let shift_right_bits = count;
+            let (masked_count, shift_right_bits) = self.rotate_counts(&lhs, count)?;
             let shift_left_bits = Expr::sub(
                 expr_const(lhs.bits() as u64, lhs.bits()),
                 shift_right_bits.clone(),
@@ -3404,37 +3416,40 @@ impl<'s> Semantics<'s> {
                 Expr::shr(lhs, shift_right_bits)?,
             )?;
 
+            let affected = Expr::cmpneq(
+                masked_count.clone(),
+                expr_const(0, masked_count.bits()),
+            )?;
+
             // CF is the bit sent from one end to the other. In our case, it should be MSB of result
-            block.assign(
-                scalar("CF", 1),
+            let cf = Expr::trun(
+                1,
+                Expr::shr(
+                    result.clone(),
+                    expr_const(result.bits() as u64 - 1, result.bits()),
+                )?,
+            )?;
+
+            // OF is XOR of two most-significant bits of result
+            let of = Expr::xor(
+                cf.clone(),
                 Expr::trun(
                     1,
                     Expr::shr(
                         result.clone(),
-                        expr_const(result.bits() as u64 - 1, result.bits()),
+                        expr_const(result.bits() as u64 - 2, result.bits()),
                     )?,
                 )?,
-            );
+            )?;
 
-            // OF is XOR of two most-significant bits of result
+            // a masked count of zero leaves the flags alone
             block.assign(
                 scalar("OF", 1),
-                Expr::xor(
-                    Expr::trun(
-                        1,
-                        Expr::shr(
-                            result.clone(),
-                            expr_const(result.bits() as u64 - 1, result.bits()),
-                        )?,
-                    )?,
-                    Expr::trun(
-                        1,
-                        Expr::shr(
-                            result.clone(),
-                            expr_const(result.bits() as u64 - 2, result.bits()),
-                        )?,
-                    )?,
-                )?,
+                Expr::ite(affected.clone(), of, expr_scalar("OF", 1))?,
+            );
+            block.assign(
+                scalar("CF", 1),
+                Expr::ite(affected, cf, expr_scalar("CF", 1))?,
             );
 
             // SF/ZF are unaffected
